@@ -42,7 +42,9 @@ def run(tier):
         nh, nr = (60, 40) if tier == "quick" else (1500, 600)
         hist_jobs = [(vlib.seed() * 100 + i, 6) for i in range(nh)]
         race_jobs = [(vlib.seed() * 77 + i, "path" if i % 2 == 0 else "host") for i in range(nr)]
-        recs = hs.run_all(copia, shim, SHIMDIR, os.path.join(work, "x"), hexes, hist_jobs, race_jobs)
+        recs = hs.run_all(copia, shim, SHIMDIR, os.path.join(work, "x"), hexes, hist_jobs, race_jobs,
+                          large=(3000, 13000) if tier == "quick" else (3000, 9000, 13000, 40000))
+        log(f"[C13] large trees: " + ", ".join(f"{x['n']} files -> second run exit {x['second']['exit']}" for x in recs if x["kind"] == "large"))
         log(f"[C13] {sum(1 for x in recs if x['kind'] == 'seq')} sequential runs, {sum(1 for x in recs if x['kind'] == 'race')} stale-listing races "
             f"({sum(1 for x in recs if x['kind'] == 'race' and x['held'])} with the server actually held)")
         path = os.path.join(work, "hubsync.ndjson")
@@ -57,6 +59,10 @@ def run(tier):
             e = recs[ln - 1]
             if e["kind"] == "race" and not e["held"]:
                 continue           # the window was not produced (nothing to stage): not an instance of the scenario
+            if e["kind"] == "large":
+                vd.violation(f"large-tree-{e['n']}-{q}", f"{q}: a local tree of {e['n']} files: first run exit {e['exit']} landed={e['landed']}; "
+                             f"second run exit {e['second']['exit']} sent={e['second']['sent']} ({e['stderr'][-100:].strip()})", {"kind": "hubsync-large", "record": e, "n": e["n"]})
+                continue
             key = f"{e['kind']}-{q}-" + "".join(map(str, e.get("local", e.get("localA")))) + "-" + "".join(map(str, e["hub"]))
             vd.violation(key, f"{q}: " + json.dumps({k: v for k, v in e.items() if k != "names"})[:600], {"kind": "hubsync", "record": e, "names": hs.NAMES})
         nonconf = [recs[ln - 1] for ln in res[0]["nonconf"]]
@@ -70,6 +76,7 @@ def run(tier):
                     "race window was really produced.", exhaustive=False)
         ev.sample({k: v for k, v in recs[1].items() if k != "names"})
         ev.sample({k: v for k, v in [x for x in recs if x["kind"] == "race"][0].items() if k != "names"})
+        ev.sample([x for x in recs if x["kind"] == "large"][-1])
         ev.assumptions += ["host:root targets run through the ssh stand-in with the built binary first on PATH",
                            "in a race only client A's processes run under the shim; B runs natively while A's server is parked"]
     finally:
